@@ -5,7 +5,7 @@ use crate::glue::{self, Level};
 use crate::mdesc::MDesc;
 use crate::refscript::{verify_input, Flags, ScriptError};
 use crate::runner::{fail, Check, Failure, Report, Src, Tier};
-use crate::world::{make_tx, sign_real};
+use crate::world::{make_tx_w, sign_real};
 use bitcoin::{ScriptBuf, Witness};
 use secp256k1::Secp256k1;
 
@@ -96,7 +96,7 @@ impl Check for C01 {
                 format!("library scriptPubKey {} differs from own encoding {}", spk.to_hex_string(), crate::keys::hex(&scripts.spk)),
             );
         }
-        let mut t = make_tx(&scripts.spk, world.lock_time, world.sequence, n_inputs, idx);
+        let mut t = make_tx_w(&scripts.spk, &world, n_inputs, idx);
         let sat = match sign_real(&d, &world, &t) {
             Ok(s) => s,
             Err(e) => return fail("sign", e),
